@@ -84,13 +84,13 @@ func outcomeVector(cr *concRun) string {
 func init() {
 	Registry["C01"] = &Prop{
 		Plan: func(tier string) Plan {
-			return Plan{Level: "exploration", NCases: pick(tier, 800, 12000), Batch: 8, CaseTimeout: 60,
+			return Plan{Level: "exploration", NCases: pick(tier, 800, 60000), Batch: 8, CaseTimeout: 60,
 				Rule: "one case = one concurrent history: 2-8 clients x 1-4 shared keys x 10-40 ops each (create / guarded update / guarded+unguarded delete / get; correct, stale and future expectations; unique values), " +
 					"keys start never-existed / live / deleted / deleted-and-compacted, PRNG delays before the engine commit, engines memkv/Badger/TiKV-mock +- metrics wrapper; " +
 					"oracle = chain rule + engine dump equality + certain-unjustified-failure rule + final read, and independently porcupine: each key's sub-history must be linearizable as a register of (revision, live) under conditional writes. " +
 					"non-trivial = >=2 writers overlapped (call/return) on one key AND >=1 condition failed; distinct by revision-ordered outcome vector",
 				Assumptions: []string{"no request deadline is set, so no unknown outcomes occur (C09 covers those)", "schedules are sampled, not enumerated"},
-				MinConcl:    pick(tier, 500, 8000)}
+				MinConcl:    pick(tier, 500, 40000)}
 		},
 		Name: concName,
 		Run: func(c *harness.Case) {
@@ -110,11 +110,11 @@ func init() {
 	}
 	Registry["C02"] = &Prop{
 		Plan: func(tier string) Plan {
-			return Plan{Level: "exploration", NCases: pick(tier, 600, 10000), Batch: 8, CaseTimeout: 60,
+			return Plan{Level: "exploration", NCases: pick(tier, 600, 50000), Batch: 8, CaseTimeout: 60,
 				Rule: "the C01 concurrent workload plus 2 concurrent List readers; oracle = uniqueness over response-determined and storage-observed revisions, real-time order sweep over (return, call) pairs, per-key monotonicity, header>=data on every response. " +
 					"non-trivial = >=50 response-determined revisions and >=1 real-time-ordered pair and >=1 failed write; distinct by outcome vector",
 				Assumptions: []string{"the revision of a failed guarded write is taken from the header only when the header exceeds the returned kv revision (otherwise ambiguous and skipped)"},
-				MinConcl:    pick(tier, 400, 7000)}
+				MinConcl:    pick(tier, 400, 35000)}
 		},
 		Name: concName,
 		Run: func(c *harness.Case) {
@@ -136,13 +136,13 @@ func init() {
 func init() {
 	Registry["C04"] = &Prop{
 		Plan: func(tier string) Plan {
-			return Plan{Level: "exploration", NCases: pick(tier, 480, 8000), Batch: 8, CaseTimeout: 90,
+			return Plan{Level: "exploration", NCases: pick(tier, 480, 60000), Batch: 8, CaseTimeout: 90,
 				Rule: "concurrent workload with delayed commits (0-5 ms, so later allocations finish first), 8% definite storage errors injected at the engine boundary (every 4th case also 4% unknown outcomes, which makes the async retry loop and faults on its repair writes part of the schedule), 4% far-future expected revisions, 2 concurrent List readers; every 8th case drives the same through etcd Txn with negative mod revisions. " +
 					"monitors: (1) read revision < r at the instant the engine answered r's batch, (2) every dealt revision deposited exactly once at quiescence (notify hook), (3) every concurrent List equals the reference snapshot at its header revision, (4) a final probe write becomes listable. " +
 					"non-trivial = >=1 commit finished out of allocation order AND >=1 failed condition AND (>=1 injected storage error OR >=1 rejected future/negative expectation); distinct by outcome vector",
 				Assumptions: []string{"storage errors are injected by a wrapper at the storage.KvStorage boundary; real TiKV network faults are not reachable",
 					"wedge verdicts come from the deposit-conservation monitor, never from a timeout (watchdog expiry = inconclusive)"},
-				MinConcl: pick(tier, 300, 6000)}
+				MinConcl: pick(tier, 300, 40000)}
 		},
 		Name: func(c *harness.Case) string {
 			if c.Index%8 == 7 {
